@@ -50,7 +50,8 @@ TPass == Pass("socket") \/ Pass("connect_call") \/ Pass("getsockopt") \/ Pass("c
          \/ Pass("run_call") \/ Pass("env") \/ Pass("quiescent") \/ Pass("recv")
 \* the loop reports failure only after a refused allocation; the request is then gone without a callback (C14)
 \* (or when the caller's own callback returned non-zero: that value comes back unchanged and is nobody's failure)
-CbStop == Has("cbrc") /\ Ev.cbrc # 0 /\ Ev.rc = Ev.cbrc
+\* (over the TLS transport a non-zero callback result reaches the loop as -1: network_ssl.c's poke reports every failure that way)
+CbStop == Has("cbrc") /\ Ev.cbrc # 0 /\ (Ev.rc = Ev.cbrc \/ (Has("tls") /\ Ev.rc = -1))
 TRunRet == /\ IsEvent("run_ret") /\ (Ev.rc = 0 \/ Ev.inj > 0 \/ fatal \/ CbStop)
            /\ fatal' = (fatal \/ (Ev.rc # 0 /\ ~CbStop)) /\ Keep(<<plan, rq, ncb, cancelled, started, done, sentok>>)
 \* bytes handed to the socket: always a prefix of the request as given (C09: sent verbatim)
